@@ -18,6 +18,7 @@ import RadixModel.Model.Sbor
 import RadixModel.Lemmas.SborSize
 import RadixModel.Lemmas.Sbor
 import RadixModel.Lemmas.SborFlavours
+import RadixModel.Lemmas.SborDepth
 
 namespace Radix.Sbor
 open Radix.Generated
@@ -111,6 +112,33 @@ theorem accepted_iff_encoding (d : Nat) (bs : Bytes) (v : Value X Y) :
     decodePayload F d bs = .ok v ↔ (encodePayload F d v = .ok bs ∧ v.WF F.utf8 wfc) :=
   ⟨encode_decode F wfc hF d bs v, fun h => decode_encode F wfc hF d v bs h.2 h.1⟩
 
+/-- The encoder's output does not depend on the depth limit (as long as it accepts). -/
+theorem encoding_limit_independent (d d' : Nat) (v : Value X Y) (bs : Bytes)
+    (h : encodePayload F d v = .ok bs) (hd : d ≤ d') : encodePayload F d' v = .ok bs := by
+  simp only [encodePayload, encValue, encField] at h ⊢
+  split at h
+  · simp at h
+  · rename_i b hb
+    split at hb
+    · simp at hb
+    · rename_i body hbody
+      have hdep := encBody_depth F d d v body hbody
+      rw [encBody_of_depth F d d' d v body d' hbody (by omega)]
+      simpa using (by simpa using hb ▸ h : _)
+
+/-- **Unique encoding.** Two well-formed values with the same encoding (under any limits) are equal:
+together with `encode_decode` every value has exactly one encoding and every accepted byte string
+exactly one value. -/
+theorem encoding_injective (d d' : Nat) (v w : Value X Y) (bs : Bytes)
+    (hv : v.WF F.utf8 wfc) (hw : w.WF F.utf8 wfc)
+    (h1 : encodePayload F d v = .ok bs) (h2 : encodePayload F d' w = .ok bs) : v = w := by
+  have e1 := encoding_limit_independent F wfc hF d (max d d') v bs h1 (Nat.le_max_left _ _)
+  have e2 := encoding_limit_independent F wfc hF d' (max d d') w bs h2 (Nat.le_max_right _ _)
+  have r1 := decode_encode F wfc hF (max d d') v bs hv e1
+  have r2 := decode_encode F wfc hF (max d d') w bs hw e2
+  rw [r1] at r2
+  exact Except.ok.inj r2
+
 end generic
 
 /-! ## The three real flavours -/
@@ -130,6 +158,12 @@ for values whose custom content is valid (`ManifestCustom.WF`). -/
 theorem manifest_roundtrip (d : Nat) (bs : Bytes) (v : Value ManifestKind ManifestCustom) :
     decodePayload manifest d bs = .ok v ↔ (encodePayload manifest d v = .ok bs ∧ v.WF utf8Valid ManifestCustom.WF) :=
   accepted_iff_encoding manifest _ manifest_lawful d bs v
+
+/-- Unique encoding, Scrypto flavour (the one used for substates and keys). -/
+theorem scrypto_encoding_injective (d d' : Nat) (v w : Value ScryptoKind ScryptoCustom) (bs : Bytes)
+    (hv : v.WF utf8Valid ScryptoCustom.WF) (hw : w.WF utf8Valid ScryptoCustom.WF)
+    (h1 : encodePayload scrypto d v = .ok bs) (h2 : encodePayload scrypto d' w = .ok bs) : v = w :=
+  encoding_injective scrypto _ scrypto_lawful d d' v w bs hv hw h1 h2
 
 /-- The recorded finding (the hypothesis `ManifestCustom.WF` cannot be dropped): the manifest value
 `NonFungibleLocalId(String(""))` is encodable, but its encoding is rejected by the decoder. -/
